@@ -19,11 +19,15 @@ pub mod replay;
 #[cfg(verif_replay)]
 pub mod selftest;
 
+pub mod c01;
 pub mod c02;
+pub mod c03;
 pub mod c06;
 pub mod c07;
+pub mod c08;
+pub mod c09;
 
 /// name -> native replay entry of every harness
 pub fn table() -> impl Iterator<Item = &'static (&'static str, fn())> {
-    c02::TABLE.iter().chain(c06::TABLE.iter()).chain(c07::TABLE.iter())
+    c01::TABLE.iter().chain(c02::TABLE.iter()).chain(c03::TABLE.iter()).chain(c06::TABLE.iter()).chain(c07::TABLE.iter()).chain(c08::TABLE.iter()).chain(c09::TABLE.iter())
 }
